@@ -54,7 +54,7 @@ class C03(Prop):
                 "put_labels_unchanged", "put_kind", "maybeCast_table_agrees", "maybeCast_table_lossless",
                 "maybeCast_table_covers_numeric_object", "putBool_spec", "putBool_shape_error", "put_writes_what_take_reads", "putResult_cells", "put_label_eq", "put_label_spec", "put_label_scalar", "put_label_array",
                 "put_ok_iff", "put_unresolved_error", "put_misfit_error", "put_normalize_error", "put_error_generic", "take_put_generic",
-                "take_put", "take_put_scalar", "take_put_array", "put_cast_only_kind", "maybeCastKind_spec", "put_mask_length_unchecked_counterexample"]
+                "take_put", "take_put_scalar", "take_put_array", "put_cast_only_kind", "maybeCastKind_spec", "put_mask_length_checked_example"]
     rule = ("arrays of rank 0-4 (bool/int/float/object values) and every index form of C01/C02 (label and position "
             "scalars, lists with repeats, masks, slices, dicts by name/position, axis=, Ellipsis, full N-d boolean masks); "
             "scalar, 0-d and broadcastable array right-hand sides of kind bool/int/float/str; spellings a[idx]=v, "
@@ -65,7 +65,9 @@ class C03(Prop):
             "float32; values and same-kind right-hand sides exactly representable); N-d boolean masks (ndarray or DimArray "
             "mask, spelled a[m]=v, a.ix[m]=v, a.loc[m]=v, a.put(m, v)) with scalar, length-1, one-value-per-True-cell "
             "array and list right-hand sides on bool/int/float/object arrays; the `a.values = v` setter (scalar, 0-d, "
-            "full-shape, trailing-dims, list and DimArray values of every kind, rank >= 1). A fixed grid runs every (array "
+            "full-shape, trailing-dims, list and DimArray values of every kind, rank 0-3); per-dimension boolean masks of "
+            "the WRONG length (shorter; longer with every True inside the axis; longer with a True beyond it) in an "
+            "otherwise readable index: must raise IndexError like the read and leave the array untouched. A fixed grid runs every (array "
             "dtype, assigned kind/flavour) pair with cast through the setter, an indexed put and a boolean put. Array and "
             "axis metadata are set on every array and must come through unchanged. Independently of the model, an oracle "
             "recomputes every cell from the positions the same index reads (index-tracking array) and the broadcast "
@@ -231,9 +233,9 @@ class C03(Prop):
 
     def gen_setter(self, rng):
         """`a.values = v`: the whole array is addressed, the values are overwritten in place with cast"""
-        # TODO(defect): rank 0 is not generated - `a.values = v` raises IndexError on a 0-d DimArray (the setter writes
-        # through `self._values[:] = v`, which NumPy refuses on a 0-d array) although a[()] = v works
-        rank = rng.choice([1, 1, 2, 2, 3])
+        # (rank 0 included: `a.values = v` on a 0-d DimArray used to raise IndexError - the setter wrote through
+        # `self._values[:] = v`, which NumPy refuses on a 0-d array - although a[()] = v works)
+        rank = rng.choice([0, 1, 1, 2, 2, 3])
         arr = gen.rand_array(rng, rank=rank, maxn=3, minn=0 if rng.random() < 0.15 else 1)
         arr["vkind"] = rng.choice(["f", "i", "i", "b", "O"])
         if rank >= 2 and rng.random() < 0.3:
@@ -252,6 +254,47 @@ class C03(Prop):
             if arr["vkind"] == "i" and (c["rflavour"] == "f32" or rng.random() < 0.4):
                 arr["vbase"] = 2 ** 24 + 1
         return c
+
+    def gen_badmask(self, rng, tier):
+        """an index that reads fine, with one dimension's entry replaced by a boolean mask whose length is NOT the
+        length of that axis (shorter, longer with every True inside the axis, longer with a True beyond it): reading
+        through it is an IndexError, so no cell may be written - the assignment must raise IndexError too and leave
+        the array as it was (a length-0 mask is not generated: NumPy reads an empty selection through it)"""
+        while True:
+            c = self.gen_case(rng, tier)
+            idx, axes = c["index"], c["array"]["axes"]
+            dims = [x["name"] for x in axes]
+            if idx["form"] == "tuple":
+                if any(x[0] == "el" for x in idx["ix"]):
+                    continue
+                slots = [(idx["ix"], j, j) for j in range(min(len(idx["ix"]), len(axes)))]
+            elif idx["form"] == "dict":
+                slots = []
+                for it in idx["items"]:
+                    k = it[0]
+                    d = dims.index(k[1]) if k[0] == "name" and k[1] in dims else k[1] % len(dims) if k[0] == "pos" and dims and -len(dims) <= k[1] < len(dims) else None
+                    if d is not None:
+                        slots.append((it, 1, d))
+            else:
+                k = idx["axis"]
+                d = dims.index(k[1]) if k[0] == "name" and k[1] in dims else k[1] % len(dims) if k[0] == "pos" and dims and -len(dims) <= k[1] < len(dims) else None
+                slots = [(idx, "ix", d)] if d is not None else []
+            if not slots or c["spelling"] == "nloc" or self.positions(c) is None:
+                continue
+            holder, key, d = rng.choice(slots)
+            n = len(axes[d]["labels"])
+            m = rng.choice([k for k in (n - 2, n - 1, n + 1, n + 1, n + 2) if k >= 1])
+            how = rng.choice(["inside", "inside", "any"])
+            mask = [(rng.random() < 0.6) and (how == "any" or j < n) for j in range(m)]
+            if how == "inside" and n and m and not any(mask):
+                mask[rng.randrange(min(n, m))] = True
+            holder[key] = ["ma", mask]
+            c["badmask"] = True
+            c["_ixkinds"] = list(c.get("_ixkinds", [])) + ["badmask", "badmask_" + ("short" if m < n else "long_inside" if not any(mask[n:]) else "long_beyond")]
+            if c["rhs"] != "scalar":
+                c["rhs"] = "scalar"           # (the selection has no shape to broadcast an array to)
+            c.pop("rhs_as", None)
+            return c
 
     def kind_grid(self):
         """every (array dtype, assigned kind / flavour) pair with cast, on one 2x3 array, through the values setter
@@ -285,7 +328,8 @@ class C03(Prop):
         n = 1300 if tier == "quick" else 34000
         for _ in range(n):
             r = rng.random()
-            yield self.gen_boolnd(rng) if r < 0.10 else self.gen_setter(rng) if r < 0.18 else self.gen_case(rng, tier)
+            yield (self.gen_boolnd(rng) if r < 0.10 else self.gen_setter(rng) if r < 0.18 else self.gen_badmask(rng, tier) if r < 0.24
+                   else self.gen_case(rng, tier))
 
     # ------------------------------------------------------------ implementation side
     def build(self, arr):
@@ -551,6 +595,14 @@ class C03(Prop):
             bad += [("M." + x if x == "errclass" else x) for x in d]
         obad, decided = self.oracle(c, io, value)
         prop_bad += obad
+        if c.get("badmask"):
+            # the same index reads nothing (IndexError): nothing may be written, and the assignment must say so
+            if "err" not in io:
+                prop_bad.append("badmask.accepted")
+            elif io["err"] != "index":
+                prop_bad.append("badmask.errclass:" + io["err"])
+            if io["orig_after"] != io["orig_before"] or io["meta_after"] != io["meta_before"]:
+                prop_bad.append("badmask.original_modified")
         if "ok" in io:
             res = io["ok"]["result"]
             before = io["orig_before"]
@@ -608,7 +660,7 @@ class C03(Prop):
              "cast": c["cast"], "inplace": c["inplace"], "rhs": c["rhs"], "spelling": c["spelling"], "mode": c["mode"],
              "rhs_as": c.get("rhs_as", "plain"), "vdtype": c["array"].get("vcast", "default"),
              "tol": "nloc" if c["spelling"] == "nloc" else "tol=" if c.get("tol") else "none",
-             "stratum": "boolnd" if c.get("boolnd") is not None else "values_setter" if c.get("setter") else "index",
+             "stratum": "boolnd" if c.get("boolnd") is not None else "values_setter" if c.get("setter") else "badmask" if c.get("badmask") else "index",
              "modelled": self.modelled(c)}
         if c.get("boolnd") is not None:
             f["boolnd.mask"] = c.get("maskform", "ndarray")
